@@ -9,7 +9,7 @@ V='/verif'
 VS=tempfile.mkdtemp(prefix='seedrun-verif-')
 shutil.copytree(V+'/specs',VS+'/specs'); shutil.copy(V+'/known_findings.json',VS); shutil.copy(V+'/properties.jsonl',VS); shutil.copy(V+'/MANIFEST.json',VS)
 os.makedirs(VS+'/bin'); shutil.copy(V+'/bin/vcgo',VS+'/bin/vcgo'); BIN=VS+'/bin/vcgo'
-PIN=subprocess.run(['git','-C','/repo','rev-parse','HEAD'],capture_output=True,text=True).stdout.strip()  # the whole run uses this commit of /repo
+PIN=os.environ.get('SEEDRUN_PIN') or subprocess.run(['git','-C','/repo','rev-parse','HEAD'],capture_output=True,text=True).stdout.strip()  # the whole run uses this commit of /repo
 claimed=[c['property_id'] for c in json.load(open(V+'/MANIFEST.json'))['checks']]
 rows=[l.rstrip('\n').split('\t') for l in open(V+'/tools/seeds.tsv') if l.strip()]
 want=set(sys.argv[1:])
@@ -46,6 +46,7 @@ for r in rows:
         for p in order:
             # two phases: the seed's own property first; the other relevant checks only if that one does not report it
             if p!=own and caught and not os.environ.get('SEEDRUN_ALL'): break
+            if p!=own and os.environ.get('SEEDRUN_OWN_ONLY'): break
             res=subprocess.run([BIN,'check','-verif',VS,'-repo',wt,'-out',out,'-prop',p,'-tier','quick','-noreplay'],capture_output=True,text=True,env=env)
             viol=[l for l in res.stdout.split('\n') if l.startswith('VIOLATION')]
             err=[l for l in res.stdout.split('\n') if l.startswith('ERROR')]
@@ -60,6 +61,8 @@ for r in rows:
                 # 'definite': the solver produced a counterexample (sat) or a dataflow pass reports the violation;
                 # the others are obligations that were discharged on the clean tree and are not (timeout/unknown) on this one
                 caught[p]={'violations':len(viol),'definite':definite,'obligations':names[:6],'errors':err[:2]}
+        if os.environ.get('SEEDRUN_NOWRITE'):
+            print(sid,'->',{k:v['violations'] for k,v in caught.items()} or 'MISSED (own property only)'); continue
         m=json.load(open(V+'/seeded/'+sid+'/meta.json'))
         m['caught_by']=caught if caught else {}
         m['caught_by_note']='quick checks run on the patched tree: the check of the seeded property first, the other claimed checks that cover the touched packages (%s) only when that one does not report the change; {} = none of them reports it'%(','.join(q for q in claimed if q in rel))
